@@ -38,7 +38,7 @@ def features(case, run, val):
 
 
 def case_gen(rng, k):
-    case = gen.gen_parallel_case(rng) if k % 5 == 4 else gen.gen_case(rng, groups=True, clean=0.75)
+    case = gen.gen_parallel_case(rng) if k % 5 == 4 else gen.gen_fanin_case(rng) if k % 5 == 2 else gen.gen_case(rng, groups=True, clean=0.75)
     if k % 3 == 1:
         # persistent outputs that are sometimes None ("no reading"): None is a value like any other
         for i, b in enumerate(case['beh']):
